@@ -3,7 +3,7 @@ content of memory handed out before a move verified after it, release through th
 import subprocess
 from vlib import build, runner
 
-TYPES = ['pool_node', 'pool_array', 'pool_small', 'coll_node', 'coll_array', 'coll_small', 'stack', 'stack_fixed', 'iteration',
+TYPES = ['pool_node', 'pool_array', 'pool_small', 'coll_node', 'coll_array', 'coll_small', 'stack', 'stack_fixed', 'stack_tracked', 'iteration',
          'arena_cached', 'arena_uncached', 'src_growing', 'src_fixed', 'src_static', 'src_virtual', 'list_unordered', 'list_ordered', 'list_small']
 
 
@@ -60,7 +60,7 @@ def oracle(log):
     held = set(); returned = set(); prev_figs = {}
     for ln in log.split('\n'):
         if ln.startswith('corrupt'):
-            msgs.append('memory handed out before a move was modified or is no longer where it was: ' + ln)
+            msgs.append((ln[8:] if ln.startswith("corrupt tracker") else "memory handed out before a move was modified or is no longer where it was: " + ln))
             continue
         parts = ln.split('|')
         if len(parts) < 3:
